@@ -88,7 +88,7 @@ pub fn gen_filter(rng: &mut Rng, n: usize, out: &mut Vec<String>) {
         out.push(format!("filter {}", hex(&s)));
     }
     for _ in 0..n / 20 { let k = rng.below(10) as usize; out.push(format!("filter {}", hex(&rng.bytes(k)))); }
-    for w in ["(cn:dnMatch:=x)", "(:dnFoo:=x)", "(entryDN:dnSubtreeMatch:=dc=example,dc=com)", "(cn:dn:=x)", "(cn:dn:dnMatch:=x)", "(ou:DN:=People)", "(ou:Dn:2.5.13.5:=People)", "(:dN:caseIgnoreMatch:=x)", "(cn:DN:dnMatch:=x)", "(cn:DNx:=x)", "(&)", "(|)", "cn=x", "(a=*)", "(a=**)", "(a=*b**c)", "(a=\\2a)", "(a=\\2)", "(=x)", "(a=x))", "((a=x)", "(2=v)", "(a;b=c)", "(a;=c)",
+    for w in ["(cn:dnMatch:=x)", "(:dnFoo:=x)", "(entryDN:dnSubtreeMatch:=dc=example,dc=com)", "(cn:dn:=x)", "(cn:dn:dnMatch:=x)", "(ou:DN:=People)", "(:dn:=x)", ":dn:=x", "(:DN:=x)", "(&(a=b)(:dn:=x))", "(:dn:dn:=x)", "(ou:Dn:2.5.13.5:=People)", "(:dN:caseIgnoreMatch:=x)", "(cn:DN:dnMatch:=x)", "(cn:DNx:=x)", "(&)", "(|)", "cn=x", "(a=*)", "(a=**)", "(a=*b**c)", "(a=\\2a)", "(a=\\2)", "(=x)", "(a=x))", "((a=x)", "(2=v)", "(a;b=c)", "(a;=c)",
               // numeric OIDs with arcs beyond 64 bits (2.25.<UUID>), at and around u64::MAX, zero arcs, leading zeros
               "(2.25.329800735698586629295641978511506172918=v)", "(1.18446744073709551615=v)", "(1.18446744073709551616=v)", "(1.2.99999999999999999999999999=*)", "(a:2.25.329800735698586629295641978511506172918:=v)",
               "(1.0.3=v)", "(1.02=v)", "(0.0=v)",
